@@ -364,15 +364,29 @@ pub struct NotModel {
 impl NotModel {
     pub fn new(layer: &Layer) -> Option<NotModel> {
         let pats = layer.patterns();
-        let any = wax::any(pats.iter().copied()).ok()?;
-        let not = Path::new("/nonexistent-base").walk().not(any).ok()?;
-        let (e, n) = not.verif_partition_texts();
+        // the negation is installed through the very route the layer takes in a real walk
+        let (e, n) = Self::installed_texts(layer)?;
         let owned = wax::any(pats.iter().map(|p| Glob::new(p).map(Glob::into_owned))).ok()?;
         Some(NotModel {
             any: owned,
             exhaustive: e.and_then(|t| Dfa::new_search(&t).ok()),
             nonexhaustive: n.and_then(|t| Dfa::new_search(&t).ok()),
             whole: pats.iter().map(|s| s.to_string()).collect(),
+        })
+    }
+    /// texts of the partition programs that `not` installs for this layer (hook H3)
+    pub fn installed_texts(layer: &Layer) -> Option<(Option<String>, Option<String>)> {
+        let walk = || Path::new("/nonexistent-base").walk();
+        let Layer::Not(p, form) = layer else { return None };
+        Some(match form {
+            NotForm::Text => walk().not(p.as_str()).ok()?.verif_partition_texts(),
+            NotForm::Compiled => walk().not(Glob::new(p).ok()?).ok()?.verif_partition_texts(),
+            NotForm::Owned => walk().not(Glob::new(p).ok()?.into_owned()).ok()?.verif_partition_texts(),
+            NotForm::AnyText(q) => walk().not(wax::any([p.as_str(), q.as_str()]).ok()?).ok()?.verif_partition_texts(),
+            NotForm::AnyNested(q) => walk()
+                .not(wax::any([wax::any([p.as_str()]).ok()?, wax::any([q.as_str()]).ok()?]).ok()?)
+                .ok()?
+                .verif_partition_texts(),
         })
     }
     /// verdict the installed partition programs give for a root-relative path
@@ -1087,6 +1101,40 @@ pub fn c03(tier: Tier) -> i32 {
         let _ = guard(|| c03_partition_check(&rep, &mut c, l));
         rep.merge(&c);
     });
+    // (ii') the same product for every expression of a program space (full bounds, flags, classes,
+    // nesting), installed as text; every fifth one also as a compiled and as an owned glob
+    {
+        let opts = crate::space::SpaceOpts {
+            shape: tier.pick(3, 4),
+            subst_single: tier.pick(2, 3),
+            subst_pairs: 0,
+            reduced: 0,
+            corpus: true,
+            letter_canonical: true,
+            position: tier.pick(1, 2),
+            position_full: tier.pick(0, 1),
+        };
+        let k = std::sync::atomic::AtomicU64::new(0);
+        let n = crate::space::for_each_expr(&opts, &|e| {
+            if Glob::new(&e.text).is_err() {
+                return;
+            }
+            let mut c = Counters::new();
+            let i = k.fetch_add(1, std::sync::atomic::Ordering::Relaxed);
+            let mut forms = vec![NotForm::Text];
+            if i % 5 == 0 {
+                forms.push(NotForm::Compiled);
+                forms.push(NotForm::Owned);
+            }
+            for form in forms {
+                let l = Layer::Not(e.text.clone(), form);
+                bump(&mut c, "space_negations", 1);
+                let _ = guard(|| c03_partition_check(&rep, &mut c, &l));
+            }
+            rep.merge(&c);
+        });
+        rep.add("space_programs_enumerated", n);
+    }
     // (i) real walks
     let scratch = Scratch::new();
     let mut worlds = fsworld::worlds(tier.pick(3, 4), &NAMES, 3);
@@ -1214,6 +1262,28 @@ fn c03_partition_check(rep: &Report, c: &mut Counters, l: &Layer) {
     let strings = crate::model::access_strings(&ex);
     let asts: Vec<refmodel::syntax::Seq> = pats.iter().filter_map(|p| refmodel::syntax::parse(p).ok()).collect();
     let mut seen: Vec<String> = vec![];
+    // Recorded finding nested-tree-position (D4), as it shows through `not`: the pattern is installed
+    // inside one more alternation, so a tree wildcard nested in a branch takes its form from another
+    // outermost position than in the glob built from the same text. An alarm is attributed to it only
+    // if the installed programs equal the encoder mirror of `{pattern}` on the WHOLE product.
+    let mut d4: Option<bool> = None;
+    let mut d4_explains = |c: &mut Counters| -> bool {
+        *d4.get_or_insert_with(|| {
+            if asts.len() != 1 || pats.len() != 1 || !matches!(l, Layer::Not(_, NotForm::Text | NotForm::Compiled | NotForm::Owned)) {
+                return false;
+            }
+            use refmodel::syntax::{Kind, Node};
+            let wrapped = vec![Node::new(Kind::Alt(vec![asts[0].clone()]))];
+            let dev = refmodel::lang::Deviations { d1: true, d2: false, d3: false, d4: true };
+            let refmodel::lang::Spec::Specified(r) = refmodel::lang::reference(&wrapped, &dev) else { return false };
+            let union = format!("(?:{})|(?:{})", e.pattern, n.pattern);
+            let Ok(installed) = Dfa::new_search(&union) else { return false };
+            let mut scratch = Counters::new();
+            let same = matches!(crate::props_lang::first_disagreement(&mut scratch, &installed, &r, &[], None), Ok(None));
+            bump(c, "d4_mirror_products", 1);
+            same
+        })
+    };
     for (i, (t, (cs, anc))) in ex.states.iter().enumerate() {
         if !cs.is_canonical_end() {
             continue;
@@ -1229,7 +1299,7 @@ fn c03_partition_check(rep: &Report, c: &mut Counters, l: &Layer) {
         if (ae || an) != aw && !seen.contains(&"complete".to_string()) {
             seen.push("complete".into());
             rep.alarm(Alarm {
-                class: None,
+                class: if d4_explains(c) { Some("nested-tree-position".into()) } else { None },
                 key: format!("complete {:?}", l),
                 msg: format!(
                     "{}: the installed partition programs {} {:?} although the pattern {} it (exhaustive: {}, nonexhaustive: {})",
@@ -1260,6 +1330,9 @@ fn c03_partition_check(rep: &Report, c: &mut Counters, l: &Layer) {
             else {
                 None
             };
+            // the glob built from the same text does not match the directory: the pattern was
+            // installed with another meaning
+            let class = if class.is_none() && Glob::new(pats[0]).map_or(false, |g| !g.is_match(anc_path.as_str())) && d4_explains(c) { Some("nested-tree-position".to_string()) } else { class };
             let tag = format!("sound {:?}", class);
             if seen.contains(&tag) {
                 continue;
